@@ -39,6 +39,15 @@ def judge_c10(line, impl, model):
     return None
 
 
+def judge_c09(line, impl, model):
+    # certrt / csrrt / crlrt: the property speaks about every template the package ACCEPTS ("ok" = created, parsed
+    # back to the same values, verifies under the issuer and under nothing else - intrinsic oracles of the harness);
+    # whether a given (key, algorithm) pair is accepted at all is the model's tie to signingParamsForPublicKey
+    if line.split(" ", 1)[0] in ("certrt", "csrrt", "crlrt") and impl in ("ok", "reject") and model in ("ok", "reject"):
+        return False
+    return None
+
+
 def judge_parsers(line, impl, model):
     # hsmsg / hsmsgm: the byte layout model of the handshake messages; a parser that accepts or dumps something
     # else without panicking breaks the tie, it does not by itself contradict C15 / C18
@@ -368,6 +377,7 @@ PROPS["C14"] = {
 }
 
 PROPS["C09"] = {
+    "judge": judge_c09,
     "modules": ["Gmsm.Props.C09", "Gmsm.Props.C09Ext", "Gmsm.Props.C09Names"],
     "theorems": [
         "Props.C09Names.san_roundtrip",
